@@ -102,9 +102,18 @@ func fnExec(ctx *cmdContext, args map[string]any) (output respValue, err error) 
 	// process all of the queued commands, regardless if one errors
 	results := make([]any, 0, len(*ctx.cs.cmdQueue))
 	for _, cc := range *ctx.cs.cmdQueue {
+		// a queued SELECT changes the data store for the commands that follow it
+		// (each command was bound to the data store selected when it was queued)
+		if cc.dsc.ds != ctx.cs.ds {
+			cc.dsc = ctx.cs.ds.newDataStoreCommand()
+		}
+
 		// use the multi command id instead of each queued command's id,
 		// so that the commands won't try to acquire a lock that we already own
-		cc.dsc.id = ctx.dsc.id
+		if cc.dsc.ds == ctx.dsc.ds {
+			cc.dsc.id = ctx.dsc.id
+		}
+		cc.txnDsc = ctx.dsc
 		verifPoint("exec:between-commands", ctx.cs.id, "")
 		results = append(results, ctx.cd.dispatchHandler(cc))
 	}
